@@ -42,6 +42,11 @@ def run(prog, rep, tier):
     f = need(prog, Q)
     S = Sym(prog, inline=inline_helpers(prog, "sempler.generators"))
     summ, _ = run_function(S, f)
+    if len([1 for v in S.loopinfo.values() if v["func"] == Q]) < 2 and any(isinstance(x, tuple) and x[:1] == ("comp",) for x in walk(T(summ.ret))):
+        # a sampling mode written as a comprehension ([list(rng.choice(...)) for i in range(K)]): read as the loop with append it abbreviates
+        S = Sym(prog, inline=inline_helpers(prog, "sempler.generators"))
+        S.desugar = "all"
+        summ, _ = run_function(S, f)
     message_safe(rep, S, f, "GUARD.message")
     # sizes and targets must be successive draws of *one* generator: two generators built from the same seed repeat each other
     from .C13 import rng_rules
